@@ -87,7 +87,7 @@ def long_prefix_part(v, univ, keep, gens, quick):
     with declgen.Scratch() as sc:
         for d_idx, cs in sorted(keep.items()):
             d = univ[d_idx - 1]
-            if '"rest"' in json.dumps(d["prog"]) or '"EOS"' in json.dumps(d["prog"]):
+            if '"rest"' in json.dumps(d["prog"]) or '"EOS"' in json.dumps(d["prog"]) or '"dollar"' in json.dumps(d["prog"]):
                 continue        # callables / delimiters that ask for len(raw): the file adapter has no length (documented adapter, not C14's subject)
             for gen in gens:
                 cls = getattr(sc.load(d["prog"], gen), d["root"])
